@@ -207,6 +207,14 @@ def make_pair(r, o=None):
             else:
                 an = r.choice(a_nets + [None])
                 bn = r.choice(b_nets + [None])
+            if o.get('share_side') and used_sel and r.random() < o['share_side']:
+                # this entry has one side in common with the first one (same network / port / protocol there), the other side differs
+                k0 = min(used_sel, key=lambda k: str(k))
+                ipp = k0[0]
+                if r.random() < 0.5:
+                    an, ap = k0[3], k0[1]
+                else:
+                    bn, bp = k0[4], k0[2]
             key = (ipp, ap, bp, an, bn)
             # keep entries disjoint enough that policy lookup is unambiguous: distinct (proto, ports, nets)
             if key not in used_sel and not any(k[3] == an and k[4] == bn and (k[0] == 'any' or ipp == 'any' or (k[0] == ipp and (k[1] in (0, ap) or ap == 0) and (k[2] in (0, bp) or bp == 0))) for k in used_sel):
